@@ -469,6 +469,25 @@ impl Cluster {
         }
     }
 
+    /// evidence for the open finding "a node applied entries the current leader does not have": some live node reports a
+    /// last_applied index greater than the last log index of the node all live nodes name as leader
+    pub fn node_applied_beyond_leader(&mut self) -> Option<String> {
+        let live = self.live();
+        let ms: Vec<(usize, Value)> = live.iter().filter_map(|i| self.metrics(*i).map(|m| (*i, m))).collect();
+        let leader_id = ms.iter().find(|(_, m)| m["state"] == "Leader").and_then(|(_, m)| m["id"].as_u64())?;
+        if !ms.iter().all(|(_, m)| m["current_leader"].as_u64() == Some(leader_id)) {
+            return None;
+        }
+        let leader_log = ms.iter().find(|(_, m)| m["id"].as_u64() == Some(leader_id)).and_then(|(_, m)| m["last_log_index"].as_u64())?;
+        for (i, m) in &ms {
+            let app = m["last_applied"].as_u64().unwrap_or(0);
+            if m["id"].as_u64() != Some(leader_id) && app > leader_log {
+                return Some(format!("node {} reports last_applied {} while the leader (node {}) has last log index {}", i + 1, app, leader_id, leader_log));
+            }
+        }
+        None
+    }
+
     pub fn shutdown(&mut self) {
         for i in 0..self.nodes.len() {
             if self.nodes[i].stopped {
